@@ -212,8 +212,18 @@ def safe_oracle(check, case):
 # --------------------------------------------------------------------------
 # workers (run inside forked processes)
 
+def _limit_memory():
+    try:
+        import resource
+        lim = int(os.environ.get('PPV_MEM_GB', '6')) << 30
+        resource.setrlimit(resource.RLIMIT_AS, (lim, lim))
+    except Exception:
+        pass
+
+
 def _worker_enumerate(args):
     cid, tier, shard, nshards, limit = args
+    _limit_memory()
     check = load_check(cid)
     st = Stats()
     try:
@@ -233,6 +243,7 @@ def _worker_enumerate(args):
 
 def _worker_random(args):
     cid, tier, seed, shard, max_examples, shrink_budget = args
+    _limit_memory()
     check = load_check(cid)
     st = Stats()
     try:
@@ -253,6 +264,8 @@ def run_hypothesis(check, tier, hseed, max_examples, st, shrink_budget):
     from hypothesis import given, settings, seed as hyp_seed, HealthCheck, Phase
     import hypothesis.errors as herr
 
+    import warnings
+    warnings.filterwarnings('ignore', category=herr.HypothesisWarning)
     state = {'first': None, 'best_key': None, 'best': None, 'harness': None}
 
     @hyp_seed(hseed)
